@@ -62,7 +62,8 @@ def dig(x):
 
 def gv_raw():
     from opticomlib.typing import gv
-    return "gv" + dig({k: v for k, v in vars(gv).items()})
+    # the process-wide state a later call can see: the gv singleton and numpy's floating-point error policy (np.seterr)
+    return "gv" + dig({k: v for k, v in vars(gv).items()}) + "|err" + repr(sorted(np.geterr().items()))
 
 
 def rng_raw():
@@ -156,6 +157,7 @@ def funcs():
         "lab.SYNC": (lambda I: (I["syncrx"], I["bits"]), lambda a: __import__("opticomlib.lab", fromlist=["SYNC"]).SYNC(a[0], a[1].data, gv.sps), 1),
         "ook.DSP": (lambda I: (I["rx"],), lambda a: ook.DSP(a[0]), 1),
         "utils.mix": (lambda I: (I["rx"].signal,), lambda a: [ut.db(np.abs(a[0]) + 1), ut.Q(a[0]), ut.shortest_int(a[0], 50), ut.dec2bin(5, 4), ut.str2array("1,2;3,4")], 2),
+        "utils.degenerate": (lambda I: (np.array([0.0, 1.0, 4.0]),), lambda a: [ut.db(a[0]), ut.dbm(a[0] * 0), float(np.max(ut.idb(a[0] * 1e4)))], 2),
         "utils.noise_variances": (lambda I: (-20.0,), lambda a: ut.noise_variances(a[0], "ppm", 4, 10, True, 1550e-9, 20, 5, 50e9), 1),
     }
     RANDOM = {"LASER-noisy", "EDFA", "EDFA-bw", "PD-all", "HDD", "GET_EYE", "ook.DSP", "PD-long", "EDFA-long", "LASER-long"}
